@@ -167,7 +167,16 @@ package codegen
 //@ func (*Writer).getAccessMaxIndex
 //@   mode bv
 //@   tags C15 C03
+//@   noinline getExpressionType inferExpressionType
 //@   at return assert [array] result1 && is(inner, ir.ArrayType) ==> inner.(ir.ArrayType).Size.Constant != nil && *inner.(ir.ArrayType).Size.Constant > 0 && result0 == *inner.(ir.ArrayType).Size.Constant - 1
 //@   at return assert [vector] result1 && is(inner, ir.VectorType) ==> inner.(ir.VectorType).Size > 0 && result0 == uint32(inner.(ir.VectorType).Size) - 1
 //@   at return assert [matrix] result1 && is(inner, ir.MatrixType) ==> inner.(ir.MatrixType).Columns > 0 && result0 == uint32(inner.(ir.MatrixType).Columns) - 1
 //@   at return assert [indexable-only] result1 ==> is(inner, ir.ArrayType) || is(inner, ir.VectorType) || is(inner, ir.MatrixType)
+
+// ---- namer (C16): the reserved-word test is made on the sanitised spelling --------------------
+//
+//@ func (*namer).call
+//@   mode bv
+//@   tags C16
+//@   at (*namer).isKeyword assert [on-sanitized] arg1 == base
+//@   at EndsWithDigit assert [digit-test-on-sanitized] arg0 == base
